@@ -450,8 +450,9 @@ func ledgerProj(l []eng.LedgerRow) [][2]interface{} {
 func (*c01) Oracle(ci, oi any) []hx.Violation {
 	h, o := ci.(eng.History), oi.(eng.Obs)
 	var vs []hx.Violation
-	// K14: Install.availableName / replaceRelease take a FAILED history lookup for "no such release"; when revision 1 has been
-	// pruned the install then stores a new revision 1 next to the existing history (c01_rfail.go c01LostNameCheck)
+	// K14 (repaired in /repo, ac81746): Install.availableName / replaceRelease took a FAILED history lookup for "no such
+	// release"; when revision 1 had been pruned the install then stored a new revision 1 next to the existing history
+	// (c01_rfail.go c01LostNameCheck).  The narrow signature stays: should that step ever come back it is reported under it
 	lostNameCheck := false
 	add := func(sig, what string) {
 		if lostNameCheck {
